@@ -68,6 +68,10 @@ pub fn data_elements_to_string(elements: &Vec<DataElement>) -> String {
     elements
         .iter()
         .map(|element| match element {
+            // There's no way to escape a double quote, so a string containing one
+            // can only have come from an unquoted item, and has to be written
+            // back unquoted too.
+            DataElement::String(string) if string.contains('"') => string.to_string(),
             DataElement::String(string) => format!("\"{}\"", string),
             DataElement::Number(number) => number.to_string(),
         })
